@@ -7,12 +7,24 @@ package main
 //	series  : <hexname>{k=<hexv>,…}@<ts>:<16 hex digits of the float64>,…
 //	          k=#<hexv>: the OTSDB datapoints with an EVEN point index send the value as a bare JSON number ("k":5), the
 //	          others as a JSON string ("k":"5") — the same tag (a tag value is the number's text)
+//	          k=^<hexv>: the OTSDB datapoints with an ODD point index spell the first byte of the value as \u00XX (the same
+//	          value: the identity of a series must not depend on the JSON spelling); ^<hexname>: likewise for the metric name
+//	          k=!t | k=!n | k=!q<hexv>: the value is sent as JSON true / null / as the string <v>\q (invalid escape): not a
+//	          tag value — every datapoint of the series must be REJECTED and nothing of it may ever be served
 //	history : p<seriesIdx>.<pointIdx>  ingest that point (OTSDB JSON through writer.AddTimeSeriesEntryToInMemBuf)
 //	          w<seriesIdx>.<pointIdx>  ingest that point through Prometheus remote write (prompb → snappy → HandlePutMetrics):
 //	                                   label values are raw strings there; the same series whatever the protocol
 //	          br  block rotation (open block → TSO/TSG files, segment stays open)      ro  forced segment rotation
+//	          tf  one pass of the tags-tree flush timer (every 60 s in production)
+//	          cr  CRASH + RESTART: the WAL timers run once (every datapoint ingested so far has its WAL append completed),
+//	              the process is killed, a new process on the same data directory recovers (RecoverWALData,
+//	              RecoverMNameWALData, RecoverMEntryWALData) and goes on with the history
 //	query   : <start>/<end>/<style>/<label>~<eq|ne|re|nre>~<hexvalue>;…[/<sum|min|max|avg|count>:<none|by|wo>:<l1+l2|->]
 //	          style b = bare metric name / fn(sel) by (…);  n = {__name__="…"} / fn by (…) (sel)
+//	          lv/<start>/<end>/<label>     GET /promql/api/v1/label/<label>/values
+//	          bx!<start>!<end>!<expr>      expression with scalar operands, unary minus, on()/ignoring(), nesting; <expr> in
+//	              prefix form:  v!<style>!<matchers>!<agg|->  |  s!<num>!<den>  |  n!<expr>  |
+//	              o!<op>!<0|1 bool>!<d|on|ig>!<l1+l2|->!<expr>!<expr>
 //
 //	mc <n> <hexname> <sharedKey>=<hexv> <idKey> <ts> Q <query…>      CARDINALITY: n series name{sharedKey=v,idKey="s<i>"} with
 //	          the single point (ts, float64(i mod 50)), all ingested, no rotation before the queries: more than 65535 series
@@ -54,16 +66,19 @@ func init() {
 
 type mkv struct {
 	k, v string
-	num  bool // sent as a bare JSON number by the OTSDB datapoints with an even point index
+	num  bool   // sent as a bare JSON number by the OTSDB datapoints with an even point index
+	esc  bool   // the OTSDB datapoints with an odd point index spell the first byte as \u00XX
+	bad  string // "t" JSON true, "n" JSON null, "q" string with an invalid escape: not a tag value
 }
 type mpt struct {
 	ts   uint32
 	bits uint64
 }
 type mser struct {
-	name   string
-	labels []mkv
-	pts    []mpt
+	name    string
+	labels  []mkv
+	pts     []mpt
+	escName bool // the OTSDB datapoints with an odd point index spell the first byte of the name as \u00XX
 }
 
 var mNamePool = [][]string{
@@ -192,9 +207,16 @@ func canonLabels(l []mkv) string {
 func (s mser) token() string {
 	var p []string
 	for _, kv := range s.labels { // order as generated: it is the base of the JSON tag order
-		if kv.num {
+		switch {
+		case kv.bad == "t" || kv.bad == "n":
+			p = append(p, kv.k+"=!"+kv.bad)
+		case kv.bad == "q":
+			p = append(p, kv.k+"=!q"+hexs(kv.v))
+		case kv.num:
 			p = append(p, kv.k+"=#"+hexs(kv.v))
-		} else {
+		case kv.esc:
+			p = append(p, kv.k+"=^"+hexs(kv.v))
+		default:
 			p = append(p, kv.k+"="+hexs(kv.v))
 		}
 	}
@@ -202,7 +224,11 @@ func (s mser) token() string {
 	for _, pt := range s.pts {
 		q = append(q, fmt.Sprintf("%d:%016x", pt.ts, pt.bits))
 	}
-	return hexs(s.name) + "{" + strings.Join(p, ",") + "}@" + strings.Join(q, ",")
+	nm := hexs(s.name)
+	if s.escName {
+		nm = "^" + nm
+	}
+	return nm + "{" + strings.Join(p, ",") + "}@" + strings.Join(q, ",")
 }
 
 const mBase = uint32(1700000000)
@@ -878,7 +904,8 @@ func parseMSeries(tok string) (s mser, ok bool) {
 	if i < 0 || j < i {
 		return
 	}
-	nb, err := hex.DecodeString(tok[:i])
+	s.escName = strings.HasPrefix(tok, "^")
+	nb, err := hex.DecodeString(strings.TrimPrefix(tok[:i], "^"))
 	if err != nil {
 		return
 	}
@@ -889,12 +916,28 @@ func parseMSeries(tok string) (s mser, ok bool) {
 			if len(p) != 2 {
 				return
 			}
+			if p[1] == "!t" || p[1] == "!n" {
+				s.labels = append(s.labels, mkv{k: p[0], v: map[string]string{"!t": "true", "!n": "null"}[p[1]], bad: p[1][1:]})
+				continue
+			}
+			if strings.HasPrefix(p[1], "!q") {
+				vb, err := hex.DecodeString(p[1][2:])
+				if err != nil {
+					return
+				}
+				s.labels = append(s.labels, mkv{k: p[0], v: string(vb), bad: "q"})
+				continue
+			}
+			if strings.HasPrefix(p[1], "!") {
+				return
+			}
 			num := strings.HasPrefix(p[1], "#")
-			vb, err := hex.DecodeString(strings.TrimPrefix(p[1], "#"))
+			esc := strings.HasPrefix(p[1], "^")
+			vb, err := hex.DecodeString(strings.TrimPrefix(strings.TrimPrefix(p[1], "#"), "^"))
 			if err != nil {
 				return
 			}
-			s.labels = append(s.labels, mkv{k: p[0], v: string(vb), num: num})
+			s.labels = append(s.labels, mkv{k: p[0], v: string(vb), num: num, esc: esc})
 		}
 	}
 	if ps := tok[j+2:]; ps != "" {
@@ -933,6 +976,14 @@ func jsonStr(s string) string {
 	return sb.String()
 }
 
+// the same string with its first byte (when it is ASCII) spelled as a \u00XX escape
+func jsonStrEsc(s string) string {
+	if s == "" || s[0] >= 0x80 {
+		return jsonStr(s)
+	}
+	return fmt.Sprintf(`"\u%04x`, s[0]) + jsonStr(s[1:])[1:]
+}
+
 func floatText(bits uint64) string {
 	f := math.Float64frombits(bits)
 	if bits == 0x8000000000000000 {
@@ -950,14 +1001,28 @@ func dpJSON(s mser, j int) string {
 		if j%3 == 2 {
 			kv = s.labels[(n-1-x+j)%n]
 		}
-		if kv.num && j%2 == 0 && mNumRe.MatchString(kv.v) {
+		switch {
+		case kv.bad == "t":
+			tg = append(tg, jsonStr(kv.k)+":true")
+		case kv.bad == "n":
+			tg = append(tg, jsonStr(kv.k)+":null")
+		case kv.bad == "q":
+			js := jsonStr(kv.v)
+			tg = append(tg, jsonStr(kv.k)+":"+js[:len(js)-1]+`\q"`)
+		case kv.num && j%2 == 0 && mNumRe.MatchString(kv.v):
 			tg = append(tg, jsonStr(kv.k)+":"+kv.v)
-		} else {
+		case kv.esc && j%2 == 1:
+			tg = append(tg, jsonStr(kv.k)+":"+jsonStrEsc(kv.v))
+		default:
 			tg = append(tg, jsonStr(kv.k)+":"+jsonStr(kv.v))
 		}
 	}
 	p := s.pts[j]
-	parts := []string{`"metric":` + jsonStr(s.name), `"tags":{` + strings.Join(tg, ",") + `}`, fmt.Sprintf(`"timestamp":%d`, p.ts), `"value":` + floatText(p.bits)}
+	nameJS := jsonStr(s.name)
+	if s.escName && j%2 == 1 {
+		nameJS = jsonStrEsc(s.name)
+	}
+	parts := []string{`"metric":` + nameJS, `"tags":{` + strings.Join(tg, ",") + `}`, fmt.Sprintf(`"timestamp":%d`, p.ts), `"value":` + floatText(p.bits)}
 	if j%2 == 1 { // field order of the JSON object varies as well
 		parts[0], parts[3] = parts[3], parts[0]
 	}
@@ -968,7 +1033,10 @@ type mQuery struct {
 	start, end uint32
 	promql     string
 	agg        bool
-	bin        bool // binary operator between two operands
+	bin        bool   // binary operator between two operands / expression
+	lv         string // label-values request for this label
+	nvec       int    // expressions: number of vector operands
+	tags       []string
 }
 
 var mBinOpText = map[string]string{"add": "+", "sub": "-", "mul": "*", "div": "/", "mod": "%", "pow": "^", "eq": "==", "ne": "!=",
@@ -1005,9 +1073,148 @@ func parseMBinQuery(tok string) (q mQuery, ok bool) {
 	return mQuery{start: uint32(a), end: uint32(b), promql: "(" + l + ") " + opText + " (" + r + ")", agg: true, bin: true}, true
 }
 
+// bx!<start>!<end>!<expr in prefix form>
+func parseMExprQuery(tok string) (q mQuery, ok bool) {
+	p := strings.Split(tok, "!")
+	if len(p) < 5 || p[0] != "bx" {
+		return
+	}
+	a, e1 := strconv.ParseUint(p[1], 10, 32)
+	b, e2 := strconv.ParseUint(p[2], 10, 32)
+	if e1 != nil || e2 != nil || a > b || !mDigits.MatchString(p[1]) || !mDigits.MatchString(p[2]) {
+		return
+	}
+	q = mQuery{start: uint32(a), end: uint32(b), agg: true, bin: true}
+	tagset := map[string]bool{}
+	var expr func(t []string, depth int) (text string, vector bool, rest []string, ok bool)
+	expr = func(t []string, depth int) (string, bool, []string, bool) {
+		if len(t) == 0 || depth > 8 {
+			return "", false, nil, false
+		}
+		switch t[0] {
+		case "v":
+			if len(t) < 4 || (t[1] != "b" && t[1] != "n") {
+				return "", false, nil, false
+			}
+			ot := p[1] + "/" + p[2] + "/" + t[1] + "/" + t[2]
+			if t[3] != "-" {
+				ot += "/" + t[3]
+			}
+			oq, ok := parseMQuery(ot)
+			if !ok || oq.bin || oq.lv != "" {
+				return "", false, nil, false
+			}
+			q.nvec++
+			return "(" + oq.promql + ")", true, t[4:], true
+		case "s":
+			if len(t) < 3 || !regexp.MustCompile(`^-?[0-9]{1,6}$`).MatchString(t[1]) || !regexp.MustCompile(`^[0-9]{1,4}$`).MatchString(t[2]) {
+				return "", false, nil, false
+			}
+			n, _ := strconv.Atoi(t[1])
+			d, _ := strconv.Atoi(t[2])
+			if d == 0 {
+				return "", false, nil, false
+			}
+			tagset["expr:scalar"] = true
+			return strconv.FormatFloat(float64(n)/float64(d), 'f', -1, 64), false, t[3:], true
+		case "n":
+			x, vec, rest, ok := expr(t[1:], depth+1)
+			if !ok {
+				return "", false, nil, false
+			}
+			tagset["expr:unary-minus"] = true
+			return "-" + x, vec, rest, true
+		case "o":
+			if len(t) < 7 || (t[2] != "0" && t[2] != "1") {
+				return "", false, nil, false
+			}
+			opText, okop := mBinOpText[t[1]]
+			if !okop {
+				return "", false, nil, false
+			}
+			if t[2] == "1" {
+				opText += " bool"
+			}
+			switch t[3] {
+			case "d":
+				if t[4] != "-" {
+					return "", false, nil, false
+				}
+			case "on", "ig":
+				var ls []string
+				if t[4] != "-" {
+					ls = strings.Split(t[4], "+")
+				}
+				for _, l := range ls {
+					if !mLabelNameRe.MatchString(l) {
+						return "", false, nil, false
+					}
+				}
+				opText += map[string]string{"on": " on", "ig": " ignoring"}[t[3]] + "(" + strings.Join(ls, ",") + ")"
+				tagset["expr:"+t[3]] = true
+				if t[1] == "and" || t[1] == "or" || t[1] == "unless" {
+					tagset["expr:set-op-with-matching"] = true
+				}
+			default:
+				return "", false, nil, false
+			}
+			l, lv, rest, ok := expr(t[5:], depth+1)
+			if !ok {
+				return "", false, nil, false
+			}
+			r, rv, rest, ok := expr(rest, depth+1)
+			if !ok {
+				return "", false, nil, false
+			}
+			if depth > 0 {
+				tagset["expr:nested"] = true
+			}
+			if lv != rv {
+				tagset["expr:vector-scalar"] = true
+			}
+			// a scalar on the left of a parenthesised negative … keep every operand in parentheses
+			if !strings.HasPrefix(l, "(") {
+				l = "(" + l + ")"
+			}
+			if !strings.HasPrefix(r, "(") {
+				r = "(" + r + ")"
+			}
+			return "(" + l + " " + opText + " " + r + ")", lv || rv, rest, true
+		}
+		return "", false, nil, false
+	}
+	text, _, rest, okx := expr(p[3:], 0)
+	if !okx || len(rest) != 0 {
+		return mQuery{}, false
+	}
+	q.promql = text
+	for t := range tagset {
+		q.tags = append(q.tags, t)
+	}
+	sort.Strings(q.tags)
+	return q, true
+}
+
+var mDigits = regexp.MustCompile(`^[0-9]{1,10}$`)
+
 func parseMQuery(tok string) (q mQuery, ok bool) {
 	if strings.HasPrefix(tok, "bin!") {
 		return parseMBinQuery(tok)
+	}
+	if strings.HasPrefix(tok, "bx!") {
+		return parseMExprQuery(tok)
+	}
+	if strings.HasPrefix(tok, "lv/") {
+		p := strings.Split(tok, "/")
+		if len(p) != 4 || !mDigits.MatchString(p[1]) || !mDigits.MatchString(p[2]) || !mLabelNameRe.MatchString(p[3]) || p[3] == "__name__" {
+			return
+		}
+		a, _ := strconv.ParseUint(p[1], 10, 32)
+		b, _ := strconv.ParseUint(p[2], 10, 32)
+		if a > b || a > math.MaxUint32 || b > math.MaxUint32 {
+			return
+		}
+		return mQuery{start: uint32(a), end: uint32(b), lv: p[3]}, true
 	}
 	p := strings.Split(tok, "/")
 	if len(p) != 4 && len(p) != 5 {
@@ -1110,8 +1317,11 @@ func ratOfBits(h string) string {
 	if math.IsNaN(f) {
 		return "nan"
 	}
-	if math.IsInf(f, 0) {
+	if math.IsInf(f, 1) {
 		return "inf"
+	}
+	if math.IsInf(f, -1) {
+		return "-inf"
 	}
 	rt := new(big.Rat).SetFloat64(f)
 	if rt.IsInt() {
@@ -1125,9 +1335,22 @@ func canonMAnswer(line string, agg bool) string {
 		Results map[string]map[string]string `json:"results"`
 		Errs    []string                     `json:"errs"`
 		Err     string                       `json:"err"`
+		Lv      []string                     `json:"labelvalues"`
+		LvErr   string                       `json:"lverr"`
 	}
 	if err := json.Unmarshal([]byte(line), &resp); err != nil {
 		return "kind=undecodable"
+	}
+	if resp.LvErr != "" {
+		return "kind=error err=" + hexs(trunc(resp.LvErr, 200))
+	}
+	if resp.Lv != nil {
+		var hv []string
+		for _, v := range resp.Lv {
+			hv = append(hv, hexs(v))
+		}
+		sort.Strings(hv)
+		return "kind=mlv vals=" + strings.Join(hv, ",")
 	}
 	if resp.Err != "" {
 		return "kind=error err=" + hexs(trunc(resp.Err, 200))
@@ -1239,6 +1462,11 @@ func mOver64k(sers []mser) bool {
 func mRejectClass(s mser) string {
 	if len(s.labels) == 0 {
 		return "no-tags"
+	}
+	for _, kv := range s.labels {
+		if kv.bad != "" {
+			return "tag-value-not-a-string"
+		}
 	}
 	for _, kv := range s.labels {
 		if len(kv.v) > 65535 {
